@@ -57,6 +57,8 @@ var c17hRel = []string{
 	"safe/[x].txt", "safe/\xc3\xbc.txt", "safe/sub/deep/e.txt", "safe/-.txt",
 	"SAFE/a.txt", "safe/A.txt", "safe/a.TXT", "safe/sub/C.txt",
 	"safe/[ab].txt", "safe/\\*.txt", "safe/[^a].txt", "safe/*.txt",
+	"safe/..%2Fother.txt", "safe/..%2fsecret%2Fs.txt", "safe/%2E%2E%2Fother.txt", "safe/..%252Fother.txt",
+	"safe/%61.txt", "safe/b%00.lst", "safe/..%5Cother.txt",
 }
 
 func c17hContent(m int) string { return fmt.Sprintf("||marker%d.example^\n", m) }
@@ -697,7 +699,9 @@ func TestVerifC17Home(t *testing.T) {
 	}
 	// plain paths through the same glue: read when safe, refused when not
 	for _, pats := range sets {
-		for _, loc := range []string{safeA, secret, R + "/safe/../secret/s.txt", R + "/safe/./sub/../a.txt", "/etc/passwd", R + "/safe/[ab].txt"} {
+		for _, loc := range []string{safeA, secret, R + "/safe/../secret/s.txt", R + "/safe/./sub/../a.txt", "/etc/passwd", R + "/safe/[ab].txt",
+			// (round 8) percent sequences: a literal file of that name; none of that name
+			R + "/safe/..%2Fother.txt", R + "/safe/..%2Fsecret%2Fs.txt", R + "/safe/%2E%2E/other.txt"} {
 			c17hHistory(t, out, tr, workDir, pats,
 				[]c17hPlant{{URL: loc, Enabled: true}}, []c17hPlant{{URL: loc + "/", Enabled: false, Loaded: 77}},
 				[]c17hOp{{Kind: "refresh"}, {Kind: "add", Loc: loc + "/."}, {Kind: "set", Old: loc + "/", Loc: loc + "/", Enabled: true, White: true}, {Kind: "refresh", White: true}},
